@@ -85,6 +85,8 @@ func VerifC19Middleware() {
 			fallbackUsed = true
 			return nil
 		}))
+	} else if rt.Bool("nilFallback") {
+		opts = append(opts, WithBlockFallback(nil)) // an explicitly nil fallback counts as not configured
 	}
 	mw := SentinelMiddleware(opts...)
 	ctx := &gear.Context{Method: "GET"}
